@@ -308,7 +308,7 @@ class Stacker(Transformer):
         )
 
         # Set dimensions and coordinates
-        self.dims_in = X.dims
+        self.dims_in = tuple(X.dims)
         self.coords_in = {dim: X.coords[dim] for dim in X.dims}
         # A Dataset is stacked in the order of its variables and of each variable's dimensions
         self.vars_in = (
